@@ -922,11 +922,14 @@ package vegeta
 //@   property C08 C16
 //@   requires [live-source] r != nil && live(r) && rsrc(r) == ref(r) && consumed(r) >= 0
 //@   ghost start int = consumed(r)
+//@   ghost trialOK bool = false
+//@   at call Decode: ghost trialOK = (result == nil)
 //@   at alloc buf: ghost rsrc(&buf) = ref(r) ; ghost rfrom(&buf) = consumed(r) ; ghost rto(&buf) = consumed(r) ; ghost teeof(&buf) = 0 ; ghost live(&buf) = false ; ghost rempty(&buf) = false
 //@   before call dec x2: assert [every-decoder-reads-from-the-first-record] rsrc(arg0) == ref(r) && rfrom(arg0) == start
 //@   ensures [nothing-lost-nothing-replayed] result != nil ==> rsrc(dreader(result)) == ref(r) && rfrom(dreader(result)) == start && rto(dreader(result)) == -1
+//@   ensures [decoder-only-after-its-trial-decoded-a-record] result != nil ==> trialOK
 //@   ensures [decoder-at-its-first-record] result != nil ==> dpos(result) == 0 && dlen(result) >= 0
 //@   loop 1
-//@     invariant -1 <= rangeindex && rangeindex < 3 && r == old(r) && live(r) && rsrc(r) == ref(r)
+//@     invariant -1 <= rangeindex && rangeindex < 3 && r == old(r) && live(r) && rsrc(r) == ref(r) && !trialOK
 //@     invariant rsrc(&buf) == ref(r) && rfrom(&buf) == start && rto(&buf) == consumed(r) && !live(&buf) && !rempty(&buf) && (teeof(&buf) == 0 || teeof(&buf) == ref(r)) && consumed(r) >= start
 //@     decreases 3 - rangeindex
